@@ -110,3 +110,17 @@ def handcrafted():
         docs_.append(("hand%d.json_solc" % k, {"contracts": {"a.sol:A": {"asm": {".code": code, ".data": {"0": {".auxdata": "a1", ".code": list(code)}}}},
                                                               "a.sol:I": {}}, "version": "0.8.15+commit.e14f2714"}))
     return docs_
+
+
+def analysis_failing():
+    """a document with one block on which the front end's analysis raises (MLOAD of a folded NOT before REVERT) next to
+    optimizable blocks: the run keeps that block as it is, and so must the replay of the run's own log"""
+    it = lambda n, v=None, **kw: dict({"begin": 1, "end": 2, "name": n, "source": 0}, **({"value": v} if v is not None else {}), **kw)
+    bad = [it("tag", "100"), it("JUMPDEST"), it("PUSH", "FA"), it("PUSH", "21"), it("MSTORE"),
+           it("PUSH", "8E7D1E3A35DAD0AE92E6C0FE76CA091F90735F1E10675861FF6B98D06AC2BA47"), it("NOT"), it("PUSH", "FF"), it("DUP2"), it("PUSH", "60"),
+           it("ADD"), it("MSTORE"), it("DUP1"), it("MLOAD"), it("REVERT")]
+    good = [it("tag", "1"), it("JUMPDEST"), it("PUSH", "1"), it("PUSH", "0"), it("ADD"), it("DUP2"), it("PUSH", "0"), it("ADD"), it("ADD"),
+            it("PUSH [tag]", "100"), it("JUMP", None, jumpType="[in]")]
+    code = good + bad
+    return [("failing0.json_solc", {"contracts": {"a.sol:A": {"asm": {".code": code, ".data": {"0": {".auxdata": "a1", ".code": list(bad) + [it("tag", "2"), it("JUMPDEST")] + list(good[2:])}}}}},
+                                   "version": "0.8.15+commit.e14f2714"})]
